@@ -1,7 +1,7 @@
 #!/usr/bin/env python3
 # runs the checks against every seeded change (applied to /repo, then reverted) and records which catch it
 import os, json, subprocess, sys, re
-ROOT='/verif'
+ROOT=os.environ.get('VERIF_ROOT','/verif')
 EXTRA={'C02-b':['C02','C15'],'C15-b':['C15','C02'],'C03-b':['C03','C02'],'C05-b':['C05','C02'],'C08-a':['C08','C02'],'C08-b':['C08','C02'],'C11-a':['C11','C18'],
        'C13-b':['C13'],'C12-b':['C12'],'C06-a':['C06'],'C06-b':['C06'],'C20-b':['C20'],'C10-a':['C10'],'C10-b':['C10'],'C18-b':['C18','C16'],
        'C02-c':['C02','C15'],'C02-d':['C02','C15'],'C15-c':['C15','C02'],'C15-d':['C15','C02'],'C06-c':['C06','C12'],'C12-c':['C12','C05'],'C13-c':['C13','C04'],
